@@ -100,8 +100,18 @@ def gen_collection(rng, cidx):
         for t in g["transcripts"]:
             if t.get("cds_starts") and not t.pop("_no_plant", False):
                 seq = specs.plant_orf(seq, t, rng, p_start=0.65, p_stop=0.65, start_codons=("ATG", "ATG", "TTG", "CTG", "GTG", "ATT", "ATA"))
+    fcs = []
+    if rng.random() < 0.3:
+        # non-gene features: the feature table has no rows for them, and they must not disturb anything else
+        # (locus-tag numbering across collections in particular)
+        for i in range(rng.randint(1, 2)):
+            a = rng.randint(0, L - 6)
+            fcs.append({"feature_intervals": [{"interval_starts": [a], "interval_ends": [a + rng.randint(2, 5)], "strand": rng.choice(["PLUS", "MINUS"]), "qualifiers": None,
+                                               "sequence_name": seqname, "feature_types": ["promoter"], "feature_name": f"feat{cidx}_{i}", "feature_id": None, "is_primary_feature": None}],
+                        "feature_collection_name": f"fc{cidx}_{i}", "feature_collection_id": None, "feature_collection_type": "regulatory", "locus_tag": None,
+                        "qualifiers": None, "sequence_name": seqname})
     return {
-        "genes": genes, "feature_collections": [], "variant_collections": [], "name": None, "id": None, "sequence_name": seqname,
+        "genes": genes, "feature_collections": fcs, "variant_collections": [], "name": None, "id": None, "sequence_name": seqname,
         "qualifiers": None, "start": None, "end": None, "completely_within": None,
         "parent": {"mode": "chrom", "genome": {"id": seqname, "seq": seq, "alphabet": "NT_EXTENDED_GAPPED"}},
     }
